@@ -566,7 +566,7 @@ def _conc_scenarios(rng, n, gc):
             scen.append("cfg bits=8 imax=1048576 pmax=%d timeout_ms=3000\n" % pmax + "\n".join(setup) + "\n" +
                         "".join("thread %s %s\n" % t for t in th) + "schedule " + " ".join(sched) + "\n" + ("free flush\n" if rng.random() < 0.3 else ""))
             continue
-        if gc and fam < 0.45:
+        if gc and fam < 0.5:
             # flush-versus-index-GC: several index files (tiny limit), dirty buckets waiting to be flushed, a Flush and an index cycle
             setup = []
             for rnd in range(rng.randint(2, 3)):
@@ -580,6 +580,9 @@ def _conc_scenarios(rng, n, gc):
                 th.append(("T1", "put %s 7171" % rng.choice([k for k in MKEYS if k not in dirty] or MKEYS)))
             names = [t[0] for t in th]
             sched = ["F1"] * rng.randint(1, 3) + [rng.choice(names) for _ in range(rng.randint(4, 30))]
+            if rng.random() < 0.5:
+                # the whole cycle runs while the Flush stands between "records written" and "bucket table updated" (or between the pool swap and the write)
+                sched = ["F1"] * rng.choice((1, 2, 2)) + ["G1"] * 10 + sched
             scen.append("cfg bits=8 imax=%d pmax=1048576 timeout_ms=3000\n" % rng.choice((40, 52, 64)) + "\n".join(setup) + "\n" +
                         "".join("thread %s %s\n" % t for t in th) + "schedule " + " ".join(sched) + "\n")
             continue
